@@ -19,12 +19,25 @@ EXPLANATION = (
     "dirkids entry exactly one self._deep_traverse_dirnode(child, childpath, ..), on the returned Deferred, with the "
     "loop variables bound per iteration. (4) _deep_traverse_dirnode gives (node, path) to walker.add_node once, lists "
     "that node, and passes the listing with the same node/path/found to _deep_traverse_dirnode_children. (5) "
-    "ManifestWalker and DeepChecker record the path they were given with the node they were given. (6) "
+    "ManifestWalker and DeepChecker record the path they were given with the node they were given; every node whose "
+    "get_storage_index() / get_verify_cap() is not None/empty is recorded in the manifest's 'storage-index' / 'verifycaps' "
+    "collection (the attributes get_results reports) with a value derived from that call; DeepChecker.add_node returns "
+    "the Deferred on which the check, the filing of its result and the stats run; a named visit callback returns the "
+    "visit's result; deep_traverse calls walker.finish() on the success path after the walk, monitor.finish afterwards, "
+    "and returns that monitor. (6) "
     "DeepStats.add_node counts a node in at most one of count-unknown / count-directories / count-files, and a file in "
-    "exactly one file kind. (7) every cap class returned by a get_verify_cap in allmydata.uri hashes and compares by "
-    "its string form (so two node objects of one directory de-duplicate). "
-    "Undecided: that write-cap and read-cap of one object derive equal verify caps (value level), behaviour of the "
-    "walker's own Deferreds, cancellation timing, LIT files linked twice are visited twice by design.")
+    "exactly one file kind; each count is reached only on paths that established the matching class test of the node "
+    "(UnknownNode / IDirectoryNode / IMutableFileNode / IImmutableFileNode / LiteralFileURI of its cap) and a node "
+    "known to be of a class leaves counted in it; size-literal-files, size-immutable-files and the size histogram are "
+    "fed node.get_size() exactly as often as the file is counted. (7) every cap class returned by a get_verify_cap "
+    "in allmydata.uri hashes and compares by its string form (so two node objects of one directory de-duplicate); "
+    "_BaseURI.__eq__ gives an answer other than the to_string() comparison only on paths where the other object is "
+    "known not to be a _BaseURI. "
+    "Undecided: that write-cap and read-cap of one object derive equal verify caps (value level), that the class tests "
+    "used by DeepStats are the right ones for every node class (value level), largest-* maxima, behaviour of the "
+    "walker's own Deferreds beyond being returned, cancellation timing (raise_if_cancelled), the turn break every 100 "
+    "files (stack depth only), the errback/finish plumbing of the Monitor on failure, LIT files linked twice are "
+    "visited twice by design.")
 TECHNIQUE = "static analysis: per-iteration typestate over the CFG, Deferred registration model, argument forwarding, class table"
 
 MOD = "dirnode"
@@ -464,6 +477,12 @@ def run(ctx: Context):
                                 break
                         val = lambda e, amap=amap: amap.get(e.id) if isinstance(e, ast.Name) else None
                         vcs = visit_calls(c, tail)
+                        for vc in vcs:
+                            r.require(any(isinstance(x, ast.Return) and x.value is not None
+                                          and any(y is vc for y in ast.walk(x.value)) for x in func_own_nodes(g)),
+                                      CH, CH.loc(vc), "the callback %s does not return the result of %s: the chain does not "
+                                      "wait for this visit, so the walk can finish (and report) before the %s is done" % (
+                                          g.name, src(CH, vc.func), "subtree" if kind == "dir" else "node"))
                     for vc in vcs:
                         if kind == "file":
                             r.require(_recv_is(vc, WALKER), CH, CH.loc(vc), "visit goes to %s" % src(CH, vc.func))
@@ -494,7 +513,8 @@ def run(ctx: Context):
     # -- 2 + 4. seeding and the add_node-then-list step -------------------------------
     with ctx.rule("C21.2", "R4", "deep_traverse seeds found with the root's verify cap and starts at (self, []); "
                   "_deep_traverse_dirnode gives (node, path) to add_node once, lists that node and hands the listing on "
-                  "with the same node / path / walker / monitor / found", expected=4) as r:
+                  "with the same node / path / walker / monitor / found; walker.finish() -> monitor.finish -> returned monitor",
+                  expected=5) as r:
         # _deep_traverse_dirnode
         tcfg = TD.cfg()
         tnorm = FlowNorm(TD)
@@ -599,11 +619,41 @@ def run(ctx: Context):
             and any(isinstance(x, (ast.Call, ast.Name)) and dnorm.norm(sn, x) == "self.get_verify_cap()" for x in ast.walk(fv))
         r.require(seeded, DT, DT.loc(sc), "the found set handed to the walk (%s) is not seeded with the root's own verify "
                   "cap: a cycle back to the root visits the root twice" % (src(DT, fv) if fv is not None else "missing"))
+        # the result of the walk: walker.finish() runs after the whole walk, its value reaches monitor.finish, and the
+        # monitor handed to the walk is the one returned
+        a_walker, a_mon = targ(T_WALKER), targ(amap.get(role_param(CH, "raise_if_cancelled", "monitor")))
+        if not (isinstance(a_walker, ast.Name) and isinstance(a_mon, ast.Name)):
+            raise AnchorVanished("deep_traverse: walker / monitor handed to the walk are not plain names")
+        WD = None
+        if sn.kind == "stmt" and isinstance(sn.ast, ast.Assign) and sn.ast.value is sc and len(sn.ast.targets) == 1 \
+                and isinstance(sn.ast.targets[0], ast.Name):
+            WD = sn.ast.targets[0].id
+        dregs = [x for x in registrations(DT) if WD and x.recv == WD]
+        r.site(DT, sc, "delivery of the walker's result")
+
+        def calls_finish(x, who):
+            t = x.target
+            if isinstance(t, ast.Lambda):
+                return any(isinstance(c, ast.Call) and call_name(c) == who + ".finish" for c in ast.walk(t.body))
+            return isinstance(t, ast.Attribute) and attr_path(t) == who + ".finish"
+        i_w = [i for i, x in enumerate(dregs) if x.kind in ("cb", "both") and calls_finish(x, a_walker.id)]
+        i_m = [i for i, x in enumerate(dregs) if x.kind in ("cb", "both", "pair") and calls_finish(x, a_mon.id)]
+        r.require(bool(i_w), DT, DT.loc(sc),
+                  "%s.finish() is not called on the success path after the walk: the operation's result does not contain "
+                  "what the walker collected" % a_walker.id)
+        r.require(not i_w or (bool(i_m) and i_m[-1] > i_w[0]), DT, DT.loc(sc),
+                  "%s.finish does not receive the result of %s.finish(): the monitor never reports the collected result" % (
+                      a_mon.id, a_walker.id))
+        drets = dcfg.find(is_return)
+        r.require(bool(drets) and all(isinstance(n.ast.value, ast.Name) and n.ast.value.id == a_mon.id for n in drets)
+                  and not find_path_avoiding(dcfg, lambda n: n.kind == "exit", gate_node=is_return), DT, DT.loc(),
+                  "deep_traverse does not return the monitor (%s) that receives the result of the walk" % a_mon.id)
 
     # -- 5. walkers pair the path with the node ---------------------------------------
     with ctx.rule("C21.5", "R6", "ManifestWalker.add_node records (path, node.get_uri()) of its own arguments and counts "
                   "the node once; DeepChecker.add_node checks the node it was given and files the result under the path "
-                  "it was given", expected=6) as r:
+                  "it was given and returns the Deferred of that work; the manifest's storage-index / verifycaps collections "
+                  "record every node that has one", expected=9) as r:
         mw = idx.func(MOD + ":ManifestWalker.add_node")
         mn, mp = first_positional_params(mw)[:2]
         apps = [c for c in calls_in_func(mw, "append") if call_name(c) == "self.manifest.append"]
@@ -625,6 +675,60 @@ def run(ctx: Context):
         r.site(mw, sup[0] if sup else None, "stats delegation")
         r.require(len(sup) == 1 and [a.id for a in sup[0].args if isinstance(a, ast.Name)][-2:] == [mn, mp], mw, mw.loc(),
                   "ManifestWalker.add_node does not hand (node, path) to DeepStats.add_node exactly once")
+        # the manifest's storage-index and verify-cap collections: every node that has one is recorded with its own
+        gr = idx.func(MOD + ":ManifestWalker.get_results")
+        colls = {}
+        for x in func_own_nodes(gr):
+            if isinstance(x, ast.Dict):
+                for k, v in zip(x.keys, x.values):
+                    if isinstance(k, ast.Constant) and k.value in ("storage-index", "verifycaps") and attr_path(v):
+                        colls[k.value] = attr_path(v)
+        if set(colls) != {"storage-index", "verifycaps"}:
+            raise AnchorVanished("ManifestWalker.get_results no longer reports 'storage-index' and 'verifycaps' from "
+                                 "attributes of the walker")
+        mcfg, mnorm = mw.cfg(), FlowNorm(mw)
+        for key, getter in (("storage-index", "get_storage_index"), ("verifycaps", "get_verify_cap")):
+            coll = colls[key]
+            SRC_ = norm_src("%s.%s()" % (mn, getter))
+
+            def recs(n):
+                return [c for c in node_calls(n) if call_tail(c) in ("add", "update", "append")
+                        and attr_path(c.func.value) == coll]
+
+            def mtr(n, lab, nxt, st, SRC_=SRC_, recs=recs):
+                if lab == "exc":
+                    return None
+                fact, added = st
+                if n.kind == "stmt" and mn in node_stores(n):
+                    fact = 0
+                if recs(n):
+                    added = 1
+                f = mnorm.edge_fact(n, lab)
+                if f:
+                    v = None
+                    if f[0] in ("truth", "false") and f[1] == SRC_:
+                        v = 1 if f[0] == "truth" else 2
+                    elif f[0] in ("is", "is not", "==", "!=") and {f[1], f[2]} == {"None", SRC_}:
+                        v = 2 if f[0] in ("is", "==") else 1
+                    if v:
+                        if fact and fact != v:
+                            return None
+                        fact = v
+                return (fact, added)
+            mvis, mpar = explore(mcfg, (0, 0), mtr)
+            r.count(len(mvis))
+            r.site(mw, None, "manifest '%s' collection %s" % (key, coll))
+            for n in mcfg.nodes:
+                for c in recs(n):
+                    r.require(len(c.args) == 1 and any(mnorm.norm(n, x) == SRC_ for x in ast.walk(c.args[0])
+                                                       if isinstance(x, (ast.Call, ast.Name))), mw, mw.loc(c),
+                              "%s records %s, which is not derived from %s of the node given" % (coll, src(mw, c), SRC_))
+            for (nid, st) in sorted(mvis):
+                if mcfg.nodes[nid].kind == "exit" and st[0] != 2 and not st[1]:
+                    r.violation(mw, mw.loc(), "a node whose %s() is not None/empty can leave ManifestWalker.add_node "
+                                "without being recorded in %s: the manifest's '%s' set misses visited objects" % (
+                                    getter, coll, key), witness(mcfg, mpar, (nid, st)))
+                    break
         dc = idx.func(MOD + ":DeepChecker.add_node")
         cn, cp = first_positional_params(dc)[:2]
         dcfg = dc.cfg()
@@ -647,6 +751,27 @@ def run(ctx: Context):
         st = [c for c in calls_in_func(dc, "add_node", into_lambda=True)]
         r.require(len(st) == 1 and [a.id for a in st[0].args if isinstance(a, ast.Name)] == [cn, cp], dc, dc.loc(),
                   "DeepChecker.add_node does not count (node, path) in its DeepStats exactly once")
+        # the traversal waits for the check, the filing of its result and the stats: add_node returns that Deferred
+        chainvars = {x.recv for x in filed} | {t.id for (n, v) in checks for t in n.ast.targets if isinstance(t, ast.Name)}
+        for x in regs:
+            if isinstance(x.target, ast.Lambda) and st and any(c is st[0] for c in ast.walk(x.target.body)):
+                chainvars.add(x.recv)
+        rets = dcfg.find(is_return)
+        r.site(dc, rets[0].ast if rets else None, "Deferred handed back to the traversal")
+
+        def ret_var(v):
+            while isinstance(v, ast.Call) and isinstance(v.func, ast.Attribute) and v.func.attr in REGS:
+                v = v.func.value          # `return d.addCallback(..)` hands back d
+            return v.id if isinstance(v, ast.Name) else None
+        ok = bool(rets) and len(chainvars) == 1 and all(n.ast.value is not None and ret_var(n.ast.value) in chainvars
+                                                        for n in rets)
+        if ok:
+            ok = not find_path_avoiding(dcfg, lambda n: n.kind == "exit", gate_node=lambda n: n.kind == "stmt"
+                                        and isinstance(n.ast, ast.Return))
+        r.require(ok, dc, dc.loc(rets[0].ast) if rets else dc.loc(),
+                  "DeepChecker.add_node does not return the Deferred (%s) on which the check, the filing of its result and "
+                  "the stats run: the traversal finishes and reports before every object has been checked and counted" % (
+                      ", ".join(sorted(v for v in chainvars if v)) or "?"))
 
     # -- 6. DeepStats.add_node -----------------------------------------------------------
     with ctx.rule("C21.6", "R2", "DeepStats.add_node counts a node in at most one of count-unknown / count-directories / "
@@ -700,6 +825,99 @@ def run(ctx: Context):
                             "mutable/literal/immutable counts" % (files, sub), witness(scfg, parent, (nid, st)))
                 break
 
+        # -- 6b. each count is taken under the class test of the node it counts (typestate over the class facts)
+        SN = first_positional_params(sa_)[0]
+        snorm = FlowNorm(sa_)
+        FORMS = {
+            "unk": {norm_src("isinstance(%s, UnknownNode)" % SN), norm_src("%s.is_unknown()" % SN)},
+            "isd": {norm_src("IDirectoryNode.providedBy(%s)" % SN)},
+            "mut": {norm_src("IMutableFileNode.providedBy(%s)" % SN)},
+            "imm": {norm_src("IImmutableFileNode.providedBy(%s)" % SN)},
+            "lit": {norm_src("isinstance(from_string(%s.get_uri()), LiteralFileURI)" % SN),
+                    norm_src("isinstance(%s, LiteralFileNode)" % SN)},
+        }
+        FK = ("unk", "isd", "mut", "imm", "lit")
+        CK = TOP + SUB + ("size-literal-files", "size-immutable-files", "size-files-histogram")
+        SIZE = norm_src("%s.get_size()" % SN)
+
+        def sized_at(n):
+            """keys of the size statistics fed at node n, with the call"""
+            out = []
+            for c in node_calls(n):
+                if call_name(c) in ("self.add", "self.histogram") and c.args and isinstance(c.args[0], ast.Constant) \
+                        and c.args[0].value in CK[6:]:
+                    out.append((c.args[0].value, c))
+            return out
+        for n in scfg.nodes:
+            for (k, c) in sized_at(n):
+                r.site(sa_, c, k)
+                r.require(len(c.args) == 2 and snorm.norm(n, c.args[1]) == SIZE, sa_, sa_.loc(c),
+                          "%s is not fed the size of the node being counted: %s" % (k, src(sa_, c)))
+
+        def tr2(n, lab, nxt, st):
+            if lab == "exc":
+                return None
+            cnt, facts = list(st[:len(CK)]), dict(zip(FK, st[len(CK):]))
+            if n.kind == "stmt" and SN in node_stores(n):
+                facts = dict.fromkeys(FK, 0)
+            for (k, c) in {id(c): (k, c) for (k, c) in keys_at(n) + sized_at(n)}.values():
+                if k in CK:
+                    cnt[CK.index(k)] = min(2, cnt[CK.index(k)] + 1)
+            f = snorm.edge_fact(n, lab)
+            if f and f[0] in ("truth", "false"):
+                for fk in FK:
+                    if f[1] in FORMS[fk]:
+                        v = 1 if f[0] == "truth" else 2
+                        if facts[fk] and facts[fk] != v:
+                            return None          # contradicts a fact already observed on this path
+                        facts[fk] = v
+            return tuple(cnt) + tuple(facts[k] for k in FK)
+        visited2, parent2 = explore(scfg, (0,) * (len(CK) + len(FK)), tr2)
+        r.count(len(visited2))
+        said = set()
+
+        def bad6(key, nid, st, msg):
+            if key not in said:
+                said.add(key)
+                r.violation(sa_, sa_.loc(), msg, witness(scfg, parent2, (nid, st)))
+        for (nid, st) in sorted(visited2):
+            n = scfg.nodes[nid]
+            fc = dict(zip(FK, st[len(CK):]))
+            isfile = fc["mut"] == 1 or fc["imm"] == 1
+            for (k, c) in keys_at(n):
+                if k == "count-unknown" and fc["unk"] != 1:
+                    bad6(k, nid, st, "count-unknown is incremented for a node not known to be an UnknownNode")
+                if k == "count-directories" and (fc["isd"] != 1 or fc["unk"] == 1):
+                    bad6(k, nid, st, "count-directories is incremented for a node not known to be a directory")
+                if k == "count-files" and (fc["unk"] == 1 or fc["isd"] == 1 or not (
+                        isfile or (fc["unk"] == 2 and fc["isd"] == 2 and not (fc["mut"] == 2 and fc["imm"] == 2)))):
+                    bad6(k, nid, st, "count-files is incremented for a node not known to be a file")
+                if k == "count-mutable-files" and fc["mut"] != 1:
+                    bad6(k, nid, st, "count-mutable-files is incremented for a node not known to be a mutable file")
+                if k == "count-literal-files" and (fc["lit"] != 1 or fc["mut"] == 1):
+                    bad6(k, nid, st, "count-literal-files is incremented for a file not known to be a literal file")
+                if k == "count-immutable-files" and (fc["lit"] != 2 or fc["mut"] == 1):
+                    bad6(k, nid, st, "count-immutable-files is incremented for a file not known to be a non-literal "
+                         "immutable file")
+            if n.kind != "exit":
+                continue
+            cn = dict(zip(CK, st[:len(CK)]))
+            if fc["unk"] == 1 and cn["count-unknown"] != 1:
+                bad6("x-unk", nid, st, "an UnknownNode leaves add_node without being counted in count-unknown")
+            if fc["unk"] != 1 and fc["isd"] == 1 and cn["count-directories"] != 1:
+                bad6("x-dir", nid, st, "a directory leaves add_node without being counted in count-directories")
+            if fc["unk"] != 1 and fc["isd"] != 1 and isfile and cn["count-files"] != 1:
+                bad6("x-file", nid, st, "a file leaves add_node without being counted in count-files")
+            if cn["size-literal-files"] != cn["count-literal-files"]:
+                bad6("x-sl", nid, st, "a literal file is counted %d time(s) but its size is added to size-literal-files %d "
+                     "time(s)" % (cn["count-literal-files"], cn["size-literal-files"]))
+            if cn["size-immutable-files"] != cn["count-immutable-files"]:
+                bad6("x-si", nid, st, "an immutable file is counted %d time(s) but its size is added to "
+                     "size-immutable-files %d time(s)" % (cn["count-immutable-files"], cn["size-immutable-files"]))
+            if cn["size-files-histogram"] != min(2, cn["count-literal-files"] + cn["count-immutable-files"]):
+                bad6("x-h", nid, st, "a sized file is counted %d time(s) but entered into size-files-histogram %d time(s)" % (
+                    cn["count-literal-files"] + cn["count-immutable-files"], cn["size-files-histogram"]))
+
     # -- 7. verifier caps hash / compare by content ---------------------------------------
     with ctx.rule("C21.7", "R6", "every class returned by a get_verify_cap of allmydata.uri hashes and compares by "
                   "to_string() (inherited from _BaseURI, not overridden)", expected=8) as r:
@@ -721,6 +939,59 @@ def run(ctx: Context):
                 v = n.ast.value
                 if isinstance(v, ast.Compare) and len(v.ops) == 1:
                     r.require(isinstance(v.ops[0], ast.Eq), be, be.loc(n.ast), "__eq__ returns %s" % src(be, v))
+            # a cap compared with another cap is never answered without looking at the two strings: any other answer
+            # (False, None, NotImplemented) is confined to the paths on which the other object is known not to be a cap
+            if not prm:
+                raise AnchorVanished("_BaseURI.__eq__ takes no other object")
+            OTHER = prm[0]
+            ecfg, enorm = be.cfg(), FlowNorm(be)
+            is_cap = {norm_src("isinstance(%s, _BaseURI)" % OTHER)}
+            both = {norm_src("self.to_string()"), norm_src("%s.to_string()" % OTHER)}
+
+            def content_cmp(n, v):
+                if isinstance(v, ast.Name):
+                    v = enorm.resolve(n, v)
+                if isinstance(v, ast.Compare) and len(v.ops) == 1 and isinstance(v.ops[0], ast.Eq):
+                    return {enorm.norm(n, v.left), enorm.norm(n, v.comparators[0])} == both
+                if isinstance(v, ast.BoolOp) and isinstance(v.op, ast.And) and v.values:
+                    # `isinstance(them, _BaseURI) and <content comparison>`
+                    return content_cmp(n, v.values[-1]) and all(
+                        isinstance(x, ast.Call) and call_tail(x) == "isinstance" for x in v.values[:-1])
+                return False
+
+            def etr(n, lab, nxt, st):
+                if lab == "exc":
+                    return None
+                fact, returned = st
+                if n.kind == "stmt" and OTHER in node_stores(n):
+                    fact = 0
+                if n.kind == "stmt" and isinstance(n.ast, ast.Return):
+                    returned = 1
+                f = enorm.edge_fact(n, lab)
+                if f and f[0] in ("truth", "false") and f[1] in is_cap:
+                    v = 1 if f[0] == "truth" else 2
+                    if fact and fact != v:
+                        return None
+                    fact = v
+                return (fact, returned)
+            evis, epar = explore(ecfg, (0, 0), etr)
+            r.count(len(evis))
+            for (nid, st) in sorted(evis):
+                n = ecfg.nodes[nid]
+                if st[0] == 2:
+                    continue
+                what = None
+                if n.kind == "stmt" and isinstance(n.ast, ast.Return):
+                    if not (n.ast.value is not None and content_cmp(n, n.ast.value)):
+                        what = src(be, n.ast)
+                elif n.kind == "exit" and not st[1]:
+                    what = "None (falls off the end)"
+                if what:
+                    r.violation(be, be.loc(n.ast) if n.ast is not None else be.loc(), "_BaseURI.__eq__ answers '%s' for an "
+                                "object that may be a cap without comparing the two to_string() values: equal verify caps "
+                                "held by different node objects are no longer recognised in the found set" % what,
+                                witness(ecfg, epar, (nid, st)))
+                    break
         vclasses = {}
         for ci in um.classes.values():
             g = ci.methods.get("get_verify_cap")
